@@ -1,39 +1,38 @@
-(* C11 - the compiler is total: any text yields a story or a diagnostic error
-   (and the structural half of C12 for every story the modelled parser returns).
+(* C11 - the compiler is total: any text yields a story or a diagnostic error.
 
    Model: Compiler/ParseLine.v (line-level functions of content.py / directives.py / validation.py),
-   Compiler/ParseMain.v (the `parse` loop of core.py and the post passes of validation.py).
-   In the model every partial Python operation is an explicit outcome (PInternal ...), every loop is
-   structural or fuelled; the statements below say which outcomes are reachable.
+   Compiler/ParseMain.v (the `parse` loop of core.py and the post passes of validation.py) - part A;
+   Compiler/ParseBlocks.v + ParseBlocksInst.v (the block extractors of blocks.py) - part B, whose own
+   theorems are in Props/C11b.v.  In the model every partial Python operation is an explicit
+   outcome (PInternal ...), every loop is structural or fuelled; the statements below say which
+   outcomes are reachable.  The model follows /repo at 74386b3 (all F11 fixes committed).
 
-   What is modelled and what is behind a contract (see the header of Compiler/ParseMain.v):
-   * modelled: the comment pre-pass, imports section, @metadata, @start, passage headers with
-     params/tags, comment lines, @render, @input, @hook/@unhook, @join markers and sections, jumps,
-     `~` statements with multi-line continuation, choices incl. `-> @join`, content lines with glue,
-     blank lines, and all post passes (_cleanup_whitespace, _trim_trailing_newlines,
-     check_duplicate_passages, validate_passage_arguments with its recursive walk,
-     _determine_initial_passage);
-   * behind the extractor record `xs` (part B, blocks.py): extract_python_block,
-     extract_conditional_block, extract_loop_block, extract_join_choice_block.  The theorems hold for
-     ALL extractors with `extractors_ok xs` (each of the first three consumes at least one line);
-     `parse_total_partial` is named _partial for that reason: an internal error or an exhausted fuel
-     can reach the result of `parse` only as the very value an extractor returned;
-   * oracles (all of them universally quantified): Python's own parser - py_stmt_ok, py_call_shape,
-     py_body_is_call.  They have two outcomes; ast.parse escaping with RecursionError on a very deep
-     expression is outside the model and is found by the direct oracle of harness/c11.py;
-   * the interpreter's recursion limit is outside `parse_content_line` (ideal, unbounded stack) and
-     explicit in `parse_content_line_lim`.
+   * `parse_total` is the property at full strength for the modelled compiler: for ALL line lists
+     (ASCII, no "\n" inside a line) and ALL oracles, `parse` with the real extractors and the real
+     line functions returns a story or a diagnostic - never an internal error, never out of fuel.
+   * `parse_total_partial`, `parse_never_out_of_fuel` are the statements about the main loop alone,
+     for ARBITRARY extractors satisfying `extractors_ok` (each of python/conditional/loop consumes
+     at least one line): an internal outcome can only be the very value an extractor returned.
+   * oracles (universally quantified): Python's own parser - py_stmt_ok, py_call_shape,
+     py_body_is_call; since fix 6f31489 every way ast.parse can fail is a SyntaxError for the compiler,
+     so two outcomes are all there is.
+   * outside the model: the text of diagnostics, non-ASCII input, the interpreter's recursion limit
+     (no recursion of the compiler is input-controlled any more: block nesting is capped at 100 by fix
+     179a3c4 and inline conditionals at 50 by fix f3adbc1 - `inline_conditional_depth_capped`).
 
-   Violations of the property that the faithful model exhibits (each confirmed on the real code by
-   harness/c11.py, pinned probes):
-   * validate_call_refuted: the AttributeError of _validate_single_call (tree.body is not a Call);
-   * parse_content_line_recursion_refuted: inline conditionals nested deeper than the stack allows. *)
+   History (witnesses of violations that the faithful model exhibited before the fixes; each was
+   confirmed on the real code and is still run as a pinned probe by harness/c11.py):
+   * validate_call_refuted (fixed by a323daa):  [":: A"; "-> T(""("") + ("")"")"; ":: T(x)"; "hi"]
+     with an oracle saying that the body of `_temp_("(") + (")")` is not a Call gave
+     PInternal INoneAttr (AttributeError: 'BinOp' object has no attribute 'args');
+   * parse_content_line_recursion_refuted (fixed by f3adbc1): with a bounded stack the tokenizer
+     returned PInternal (IRecursion _) on "{a ? {b ? c | d} | e}" nested deeper than the stack;
+   * RecursionError escaping from ast.parse on "~ x = ---...1" (fixed by 6f31489; outside the model). *)
 From Coq Require Import String Ascii List Bool Arith.
 From Bardic Require Import PyStr Value Compiled Lex ParseBase ParseLine ParseMain ParseProofs.
+From Bardic Require Import ParseBlocks ParseBlocksInst ParseAllProofs.
 Import ListNotations.
 Local Open Scope string_scope.
-
-(* ---- C11 ---- *)
 
 (* The termination argument of the real `while`: with fuel = S (length lines) the main loop does not
    run out of fuel (every iteration advances the index by at least one) - the only way to see
@@ -67,17 +66,19 @@ Theorem line_functions_total :
 Proof. exact line_functions_total_lemma. Qed.
 Print Assumptions line_functions_total.
 
-(* ... but with a bounded stack the content-line tokenizer fails on deep nesting: one level of
-   recursion per nested inline conditional (CPython: about 500 levels; here a small limit). *)
-Theorem parse_content_line_recursion_refuted :
-  exists s, parse_content_line_lim 2 (S (String.length s)) s = PInternal (IRecursion "parse_content_line").
-Proof. exists "{a ? {b ? c | d} | e}". vm_compute. reflexivity. Qed.
-Print Assumptions parse_content_line_recursion_refuted.
+(* the nesting of inline conditionals is capped: 50 levels are tokenized, the 51st is a diagnostic
+   (so the mutual recursion parse_content_line <-> parse_inline_conditional is at most 51 deep) *)
+Theorem inline_conditional_depth_capped :
+  is_ok (parse_content_line (nested_conditional 50)) = true /\
+  parse_content_line (nested_conditional 51) = PDiag (DSyntax "content:nesting-depth" 0).
+Proof. exact inline_depth_cap_lemma. Qed.
+Print Assumptions inline_conditional_depth_capped.
 
-(* parse is total up to the extractors: when every parsed call body is a Call node, the result is a
-   story, a diagnostic, or exactly the internal outcome some extractor returned. *)
+(* the main loop and the post passes are total up to the extractors: for arbitrary extractors that
+   consume at least one line, the result is a story, a diagnostic, or exactly the internal outcome
+   some extractor returned *)
 Theorem parse_total_partial : forall pp is_call xs,
-  extractors_ok xs -> (forall a, is_call a = true) ->
+  extractors_ok xs ->
   forall lines,
     match parse pp is_call xs lines with
     | POk _ | PDiag _ => True
@@ -87,61 +88,16 @@ Theorem parse_total_partial : forall pp is_call xs,
 Proof. exact parse_total_partial_lemma. Qed.
 Print Assumptions parse_total_partial.
 
-(* without the hypothesis on the call oracle there is exactly one more outcome *)
-Theorem parse_total_general_partial : forall pp is_call xs,
-  extractors_ok xs ->
-  forall lines,
-    match parse pp is_call xs lines with
-    | POk _ | PDiag _ => True
-    | PInternal k => xs_internal xs k \/ (k = INoneAttr /\ exists a, is_call a = false)
-    | POutOfFuel => xs_fuel xs
-    end.
-Proof. exact parse_total_general_lemma. Qed.
-Print Assumptions parse_total_general_partial.
+(* the block extractors of part B, run with part A's line functions, meet what the main loop needs:
+   progress, and totality wherever the loop calls them *)
+Theorem real_extractors_fit : extractors_ok real_extractors /\ call_sites_total real_extractors.
+Proof. exact (conj real_extractors_ok real_call_sites_total). Qed.
+Print Assumptions real_extractors_fit.
 
-(* ... and it is reachable: `-> T("(") + (")")` with `:: T(x)`.  The argument string `"(") + (")"`
-   parses (as `_temp_("(") + (")")`), its body is a BinOp, `call_node.args` raises AttributeError. *)
-(* binop_args, binop_oracle, binop_is_call: Proofs/ParseProofs.v (witnesses) *)
-Theorem validate_call_refuted :
-  exists lines, parse binop_oracle binop_is_call no_extractors lines = PInternal INoneAttr.
-Proof. exists [":: A"; "-> T(" ++ binop_args ++ ")"; ":: T(x)"; "hi"]. vm_compute. reflexivity. Qed.
-Print Assumptions validate_call_refuted.
-
-(* ---- C12, structural half ---- *)
-
-(* the initial passage is a key of the story's passages and follows @start > "Start" > first *)
-Theorem parse_ok_initial_exists : forall pp is_call xs lines0 story,
-  parse pp is_call xs lines0 = POk story ->
-  has_key (initial story) (passages story) = true /\
-  exists fs,
-    (let lines := strip_comments_outside_python lines0 None false 0 in
-     parse_loop pp xs (S (List.length lines)) lines (List.length lines) 0 init_state = POk fs) /\
-    follows_priority (passages story) (st_explicit_start fs) (initial story).
-Proof. exact parse_ok_initial_lemma. Qed.
-Print Assumptions parse_ok_initial_exists.
-
-(* each passage is keyed by its own id *)
-Theorem parse_ok_keys_are_ids : forall pp is_call xs lines0 story,
-  parse pp is_call xs lines0 = POk story ->
-  forall k p, In (k, p) (passages story) -> pid p = k.
-Proof. exact parse_ok_keys_lemma. Qed.
-Print Assumptions parse_ok_keys_are_ids.
-
-(* the validator's walk is sound on arbitrary token trees (whatever the extractors built): if it
-   accepts a token, every jump and choice target in it, at any depth of conditionals and loops, is a
-   defined passage or "@join" *)
-Theorem validate_walk_sound : forall pp is_call ps t,
-  check_token pp is_call ps t = POk tt -> targets_ok ps t.
-Proof. exact check_token_targets. Qed.
-Print Assumptions validate_walk_sound.
-
-(* hence for every story parse returns: all targets of all passages are defined *)
-Theorem validated_targets_defined : forall pp is_call xs lines0 story,
-  parse pp is_call xs lines0 = POk story ->
-  forall k p, In (k, p) (passages story) ->
-    choices_targets_ok (passages story) (choices p) /\ tokens_targets_ok (passages story) (content p).
-Proof. exact validated_targets_lemma. Qed.
-Print Assumptions validated_targets_defined.
+(* C11 for the modelled compiler, full strength *)
+Theorem parse_total : forall pp is_call lines, ok_or_diag (parse_real pp is_call lines).
+Proof. exact parse_total_lemma. Qed.
+Print Assumptions parse_total.
 
 (* ---- non-vacuity ---- *)
 
@@ -159,6 +115,20 @@ Proof. vm_compute. split; reflexivity. Qed.
 Example sample_dangling :
   parse sample_oracle (fun _ => true) no_extractors [":: A"; "-> Nowhere"] =
   PDiag (DSyntax "call:unknown-target" 0).
+Proof. vm_compute. reflexivity. Qed.
+
+(* every block construct through the combined model *)
+Example block_sample :
+  match parse_real (mkPyparse (fun _ => true) (fun _ => Some (0, []))) (fun _ => true) block_sample_lines with
+  | POk st => map fst (passages st) = ["Start"; "End"] /\ initial st = "Start"
+  | _ => False
+  end.
+Proof. exact block_sample_parses. Qed.
+
+(* the former crash is a diagnostic now *)
+Example call_body_not_a_call :
+  parse binop_oracle binop_is_call no_extractors [":: A"; "-> T(" ++ binop_args ++ ")"; ":: T(x)"; "hi"] =
+  PDiag (DSyntax "call:malformed-arguments" 0).
 Proof. vm_compute. reflexivity. Qed.
 
 (* extractors_ok is satisfiable (by extractors that consume one line) *)
